@@ -242,11 +242,77 @@ def run (ctx):
           if isinstance(t, ast.Attribute) and t.attr in ('priority', 'match') and cls is not te and not (isinstance(t.value, ast.Name) and t.value.id in ('self', 'msg', 'fm', 'flow_mod', 'fr', 'n', 'm', 'po', 'r')) and mod.name in ('pox.openflow.flow_table', 'pox.datapaths.switch'):
             ctx.bad('R-OWN', f, "an installed entry's %s is never rewritten" % t.attr, "`%s` changes the sort key of an entry that is already in the table" % norm(st), (mod, st), 'D4')
   ctx.floor('table mutator sites', nmut, 2)
+  # from_packet treats a frame as tagged exactly when the packet library parsed a vlan header: the library may hand the vlan
+  # parser only frames of ethertype 0x8100 (OpenFlow 1.0 knows no other tag type; a 0x9100 frame is untagged with dl_type 0x9100)
+  try:
+    emod = repo.mod('lib.packet.ethernet'); ecls = emod.classes.get('ethernet')
+  except Exception: ecls = None
+  if ecls is not None:
+    keys = []
+    for em_ in ecls.methods.values():
+      for t_, v_, st_, k_ in q.stores_in(em_.node):
+        if isinstance(t_, ast.Subscript) and 'type_parsers' in norm(t_.value) and isinstance(v_, ast.Name) and v_.id == 'vlan': keys.append((t_.slice, st_))
+      for c_ in calls_in(em_.node):
+        if call_name(c_) == 'update' and isinstance(c_.func, ast.Attribute) and 'type_parsers' in norm(c_.func.value) and c_.args and isinstance(c_.args[0], ast.Dict):
+          for k2, v2 in zip(c_.args[0].keys, c_.args[0].values):
+            if isinstance(v2, ast.Name) and v2.id == 'vlan': keys.append((k2, c_))
+    for k_, site in keys:
+      kv = repo.try_const(emod, k_, ecls)
+      ctx.ob('R-AGREE', ecls, "the vlan parser is registered for ethertype 0x8100 only (`%s`)" % norm(k_), kv == 0x8100, "0x8100" if kv == 0x8100 else
+             "ethertype %s is parsed as a VLAN tag: from_packet then reports dl_vlan / dl_vlan_pcp and the inner ethertype for such frames, where OpenFlow 1.0 requires 'untagged, dl_type = %s' - flows match the wrong frames"
+             % (hex(kv) if isinstance(kv, int) else norm(k_), hex(kv) if isinstance(kv, int) else norm(k_)), (emod, site), 'D2')
+    ctx.floor('vlan parser registrations', len(keys), 1)
   # ordered insert idiom
   g = q.cfg_of(ae)
   ins = [c for c in calls_in(ae.node) if call_name(c) == 'insert']
   srt = [c for c in calls_in(ae.node) if call_name(c) == 'sort']
   bis = [c for c in calls_in(ae.node) if call_name(c) in ('bisect_left', 'bisect_right', 'bisect', 'insort', 'insort_left', 'insort_right')]
+  # by evaluation on sample tables (E = exact-match entry, Wn = wildcarded entry of priority n): where does the new entry land?
+  def entry_ (nm_, prio, exact):
+    return q.Rec(name=nm_, priority=prio, effective_priority=(65537 if exact else prio), match=q.Rec(is_exact=exact, is_wildcarded=not exact))
+  def add_on (table, new):
+    import bisect as _bisect
+    def hook (call, env=None):
+      nmc = call_name(call)
+      if nmc in ('insort', 'insort_left', 'insort_right', 'bisect', 'bisect_left', 'bisect_right') and len(call.args) >= 2:
+        try:
+          lst = q.eval_env2(repo, ftm, call.args[0], env, ft); x = q.eval_env2(repo, ftm, call.args[1], env, ft)
+          kf = kwarg(call, 'key')
+          keyf = None
+          if isinstance(kf, ast.Lambda) and len(kf.args.args) == 1:
+            keyf = lambda o_, kf=kf: q.eval_env2(repo, ftm, kf.body, q.Env({kf.args.args[0].arg: o_}), ft)
+          elif kf is not None: return (False, None)
+          keys = [keyf(o_) for o_ in lst] if keyf else list(lst)
+          kx = keyf(x) if (keyf and nmc.startswith('insort')) else x
+          pos = (_bisect.bisect_left if nmc.endswith('left') else _bisect.bisect_right)(keys, kx)
+          if nmc.startswith('insort'):
+            cur = lst; c2 = list(cur); c2.insert(pos, x)
+            for k2_, v2_ in list(env.exact.items()):
+              if v2_ is cur: env.exact[k2_] = c2
+            return (True, None)
+          return (True, pos)
+        except Exception: return (False, None)
+      if nmc == '_dirty': return (True, None)
+      return (False, None)
+    hook.wants_env = True; hook.effects = True
+    outs = set()
+    for p_, e_ in q.paths_under(repo, ftm, g, q.Env({'self._table': list(table), ae.params[1]: new}, [((lambda e: isinstance(e, ast.Call) and call_name(e) == 'isinstance'), True)], hook), g.entry, [g.exit], ft, limit=200):
+      v_ = e_.exact.get('self._table', '?')
+      outs.add(tuple(x['name'] for x in v_) if isinstance(v_, list) else '?')
+    return outs
+  E5, W10, W7, W5, E1 = entry_('E5', 5, True), entry_('W10', 10, False), entry_('W7', 7, False), entry_('W5', 5, False), entry_('E1', 1, True)
+  samples = [([], W7, ('W7',)), ([E5], W10, ('E5', 'W10')), ([W10, W5], W7, ('W10', 'W7', 'W5')), ([W10], E1, ('E1', 'W10')), ([E5, W10, W5], W7, ('E5', 'W10', 'W7', 'W5'))]
+  ins_wrong = []; ins_unknown = 0
+  for tbl_, new_, want_ in samples:
+    got_ = add_on(tbl_, new_)
+    if len(got_) != 1 or '?' in got_: ins_unknown += 1
+    elif got_ != {want_}: ins_wrong.append(([x['name'] for x in tbl_], new_['name'], sorted(got_), want_))
+  if ins_unknown:
+    ctx.undecided('R-AGREE', ae, "add_entry on sample tables keeps descending effective priority (exact entries first)", "%d of %d sample tables not evaluable" % (ins_unknown, len(samples)), ae, 'D4')
+  else:
+    ctx.ob('R-AGREE', ae, "add_entry on sample tables keeps descending effective priority (exact entries first)", not ins_wrong, "%d sample tables" % len(samples) if not ins_wrong else
+           "adding %s to the table %s gives %s, expected %s: an exact-match entry no longer outranks a wildcarded one of numerically higher priority (or priorities are out of order) - lookup returns the wrong entry"
+           % (ins_wrong[0][1], ins_wrong[0][0], ins_wrong[0][2], list(ins_wrong[0][3])), ae, 'D4')
   if ins and bis:
     # ordered insert through a parallel list of sort keys: sound only if every writer of the table keeps that list in step
     c = bis[0]
